@@ -324,8 +324,19 @@ func sameEnc(a []byte, aerr error, b []byte, berr error) bool {
 
 var genericBad = []string{"", " ", "[]", "[1]", "\"x\"", "5", "true", "{", "}", "{\"a\":", "{\"a\":1,}", "nul", "{} {}", "{\"a\" 1}", "[{}]", "{\"a\":{\"b\":[1,}}", "\x00", "{\"a\":\"\\u12\"}"}
 
-func (sp *jspec) badDocs() []string {
+// badDocs: good is the encoding of a value that differs from the decode target in every field
+// ("" if it has none); a document that first sets every field and then hits an ill-typed member
+// shows whether a failed decode leaks the members decoded before the error.
+func (sp *jspec) badDocs(good string) []string {
 	docs := append([]string(nil), genericBad...)
+	if strings.HasSuffix(good, "}") && len(good) > 2 {
+		for _, f := range sp.fields {
+			if f.visible && f.jsonName != "" && f.wrong != "" {
+				docs = append(docs, good[:len(good)-1]+fmt.Sprintf(",%q:%s}", f.jsonName, f.wrong))
+			}
+		}
+		docs = append(docs, good[:len(good)-1], good+"x", good[:len(good)-1]+",}")
+	}
 	for _, f := range sp.fields {
 		if !f.visible || f.jsonName == "" {
 			continue
@@ -416,7 +427,11 @@ func runJSpec(c *lawCtx, sp *jspec) {
 		// decoder robustness: the target is preloaded with the complementary value
 		other := all &^ bits
 		expY := sp.expected(other)
-		for _, doc := range sp.badDocs() {
+		good := ""
+		if err == nil && pan == nil {
+			good = string(enc)
+		}
+		for _, doc := range sp.badDocs(good) {
 			for _, dec := range []struct {
 				name string
 				f    func(doc []byte, base any) (any, error)
